@@ -8,7 +8,7 @@ expression returns nothing, so "an expression changes the stack only if it match
 construction.
 
 Bounded repetitions (and `e+` without `grammar-extras`) *mean* their unrolled forms (DESIGN §10
-I1): `denote` is defined on the core language and `meaning` unrolls first.
+I1): `denote` evaluates them by unrolling on the fly.
 -/
 namespace PestModel.Ref
 open PestModel.G
@@ -143,9 +143,11 @@ mutual
         | .fail => .ok s []
         | r => r
       | .repOnce e =>
-        match denote c fuel m la e s with
-        | .ok s1 f1 => repLoop c fuel m la e s1 f1
-        | r => r
+        if c.extras then
+          match denote c fuel m la e s with
+          | .ok s1 f1 => repLoop c fuel m la e s1 f1
+          | r => r
+        else denote c fuel m la (.seq e (.rep e)) s      -- without `grammar-extras`, `e+` means `e ~ e*` (I1)
       | .skip strs =>
         match restAt c.input s.pos with
         | some rest => .ok { s with pos := search strs rest s.pos } []
@@ -162,8 +164,24 @@ mutual
         match denote c fuel m la e s with
         | .ok s1 f1 => .ok s1 (if la then f1 else setLastTag f1 t)
         | r => r
-      -- bounded repetitions are unrolled by `meaning`; they never reach `denote`
-      | .repExact _ _ | .repMin _ _ | .repMax _ _ | .repMinMax _ _ _ => .stuck
+      -- bounded repetitions mean their unrolled forms (I1); an empty unrolling (`e{0}`) has no
+      -- meaning (the real unroller panics on it)
+      | .repExact e n =>
+        match seqOfList (List.replicate n e) with
+        | some u => denote c fuel m la u s
+        | none => .stuck
+      | .repMin e n =>
+        match seqOfList (List.replicate n e ++ [.rep e]) with
+        | some u => denote c fuel m la u s
+        | none => .stuck
+      | .repMax e n =>
+        match seqOfList (List.replicate n (.opt e)) with
+        | some u => denote c fuel m la u s
+        | none => .stuck
+      | .repMinMax e lo hi =>
+        match seqOfList ((List.range hi).map fun i => if i + 1 ≤ lo then e else .opt e) with
+        | some u => denote c fuel m la u s
+        | none => .stuck
   /-- `(skip e)*` after a first `e`: each unit is all-or-nothing. -/
   def repLoop (c : Ctx) : Nat → Atomicity → Bool → Expr → St → List Tree → Res
     | 0, _, _, _, _, _ => .fuel
@@ -293,14 +311,9 @@ def ofOptimized : OExpr → Expr
 
 def ofOptimizedRules (rs : List ORule) : List Rule := rs.map fun r => ⟨r.name, r.ty, ofOptimized r.expr⟩
 
-/-- unroll every rule (I1); `none` if `unroll` panics (`e{0}`). -/
-def unrollRules (extras : Bool) (rules : List Rule) : Option (List Rule) := rules.mapM (unroll extras)
-
 /-- `parse(g, r, input)`: call rule `r` in the non-atomic context at position 0 with an empty stack. -/
 def meaning (rules : List Rule) (extras : Bool) (uni : String → Option CharSet) (fuel : Nat)
     (rule : String) (input : Str) : Res :=
-  match unrollRules extras rules with
-  | none => .stuck
-  | some rs => call { rules := rs, input, extras, uni } fuel .nonAtomic false rule ⟨0, []⟩
+  call { rules, input, extras, uni } fuel .nonAtomic false rule ⟨0, []⟩
 
 end PestModel.Ref
